@@ -147,6 +147,22 @@ type PathSample struct {
 	inputs   []InputRec
 	raw      map[string]uint64
 	obs      []obsVal
+	spec     *HarnessSpec // label scoping of the plan entry the sample belongs to
+}
+
+// countedFails drops native assertion failures whose labels the plan entry does not count (the
+// native harness evaluates every assertion; the executor only those of the listing property).
+func (s *PathSample) countedFails(fails []string) []string {
+	if s.spec == nil {
+		return fails
+	}
+	var out []string
+	for _, f := range fails {
+		if s.spec.counts(f) {
+			out = append(out, f)
+		}
+	}
+	return out
 }
 
 type obsVal struct {
@@ -595,7 +611,7 @@ func (w *Worker) maybeSample(e *Exec, r *HarnessRun) {
 	if sm := e.preferStrict(e.tb.T); sm != nil {
 		m = sm
 	}
-	ps := &PathSample{Pkg: r.Spec.Pkg, Harness: r.Spec.Func, Params: r.Spec.Params, Decisive: len(e.trace), Model: map[string]string{}, raw: m, inputs: e.inputs}
+	ps := &PathSample{Pkg: r.Spec.Pkg, Harness: r.Spec.Func, Params: r.Spec.Params, Decisive: len(e.trace), Model: map[string]string{}, raw: m, inputs: e.inputs, spec: r.Spec}
 	var pcs []string
 	for i, c := range e.pc {
 		if i >= 4 {
